@@ -102,10 +102,13 @@ func (w *World) checkNode(n *Node, e *blockEntry, ctx string) {
 	if l == nil {
 		return
 	}
-	s := n.tip
-	st := n.store
+	w.checkStore(fmt.Sprintf("node %d after %s of block %s (height %d): ", n.idx, ctx, short(e.id), e.height), n.store, n.tip, l, ctx)
+}
+
+// checkStore compares a store and state with a reference ledger.
+func (w *World) checkStore(where string, st *Store, s consensus.State, l *ref.Ledger, ctx string) {
 	bad := func(prop, inv, f string, a ...any) {
-		w.violate(prop, inv, fmt.Sprintf("node %d after %s of block %s (height %d): ", n.idx, ctx, short(e.id), e.height)+fmt.Sprintf(f, a...))
+		w.violate(prop, inv, where+fmt.Sprintf(f, a...))
 	}
 	storeProp := "C01"
 	if ctx == "revert" {
@@ -191,7 +194,7 @@ func (w *World) checkNode(n *Node, e *blockEntry, ctx string) {
 		bad("C03", "foundation-address", "state foundation addresses (%v,%v), ledger (%v,%v)", s.FoundationSubsidyAddress, s.FoundationManagementAddress, l.FoundationPrimary, l.FoundationFailsafe)
 	}
 	// accumulator = naive forest
-	w.checkForest(n, s, l, bad)
+	w.checkForest(st, s, l, bad)
 	w.nontrivial = true
 }
 
@@ -205,7 +208,7 @@ func normFC(fc types.FileContract) types.FileContract {
 	return fc
 }
 
-func (w *World) checkForest(n *Node, s consensus.State, l *ref.Ledger, bad func(prop, inv, f string, a ...any)) {
+func (w *World) checkForest(st *Store, s consensus.State, l *ref.Ledger, bad func(prop, inv, f string, a ...any)) {
 	f := l.Forest
 	if s.Elements.NumLeaves != f.N() {
 		bad("C05", "leaf-count", "accumulator has %d leaves, naive forest %d", s.Elements.NumLeaves, f.N())
@@ -218,7 +221,6 @@ func (w *World) checkForest(n *Node, s consensus.State, l *ref.Ledger, bad func(
 			return
 		}
 	}
-	st := n.store
 	checkProof := func(kind string, id [32]byte, se types.StateElement) bool {
 		want := f.Path(se.LeafIndex)
 		if len(want) != len(se.MerkleProof) {
@@ -273,6 +275,28 @@ func (w *World) onApplied(n *Node, e *blockEntry, au consensus.ApplyUpdate, firs
 	w.checkNode(n, e, "apply")
 	if w.fatal {
 		return
+	}
+	if l := w.ledgers[e.id]; l != nil && first {
+		for _, r := range l.Resolved {
+			era := ""
+			if !r.V2 {
+				switch {
+				case e.height < w.net.HardforkTax.Height:
+					era = ".era1"
+				case e.height < w.net.HardforkStorageProof.Height:
+					era = ".era2"
+				default:
+					era = ".era3"
+				}
+			}
+			w.stats.Inc("reach.resolved." + r.Kind + era)
+		}
+		if l.ClaimsPaid > 0 {
+			w.stats.Add("reach.siafund-claims", int64(l.ClaimsPaid))
+		}
+		if l.Subsidy != nil && l.Subsidy.Sign() > 0 {
+			w.stats.Inc("reach.foundation-subsidy")
+		}
 	}
 	w.lightsApplied(n, e, au)
 	w.extrasApplied(n, e, au, first)
